@@ -398,7 +398,7 @@ fn runtimes(threads: usize, rounds: usize, seed: u64) -> Value {
                                 let text = format!("join('-', [{}])", words.iter().map(|w| format!("'{}'", w)).collect::<Vec<_>>().join(", "));
                                 let want = format!("ok:\"{}\"", words.join("-"));
                                 for _ in 0..3 {
-                                    let g = fp(&rt.compile(&text).and_then(|e| e.search(())));
+                                    let g = fp(&rt.compile(&text).and_then(|e| e.search(doc)));
                                     done += 1;
                                     if g != want && mism.len() < 3 {
                                         mism.push(json!({"phase": "concurrent", "round": round, "thread": t, "expression": "join('-', [<20 words of this thread>])", "known_by_construction": want, "shared_runtime": g}));
